@@ -93,17 +93,39 @@ void FeatureChecker::visitGuard(expression_t& guard)
 
 void FeatureChecker::visitAssignment(expression_t& ass)
 {
-    switch (ass.get_kind()) {
-    case Constants::ASSIGN:
-        if (ass.uses_fp() && !ass.uses_hybrid())
-            supported_methods.symbolic = false;
-        break;
-    case Constants::COMMA:
-        for (size_t i = 0; i < ass.get_size(); ++i)
-            visitAssignment(ass.get(i));
-        break;
-    default: break;
-    }
+    if (ass.empty())
+        return;
+    if (ass.get_kind() == Constants::ASSIGN && ass.uses_fp() && !ass.uses_hybrid())
+        supported_methods.symbolic = false;
+    // update lists, nested assignments, ...
+    for (size_t i = 0; i < ass.get_size(); ++i)
+        visitAssignment(ass.get(i));
+}
+
+/** Functions may be called from updates: their assignments count as well. */
+void FeatureChecker::visitFunction(function_t& fun)
+{
+    if (fun.body)
+        fun.body->accept(this);
+}
+
+int32_t FeatureChecker::visitExprStatement(ExprStatement* stat)
+{
+    visitAssignment(stat->expr);
+    return 0;
+}
+
+int32_t FeatureChecker::visitForStatement(ForStatement* stat)
+{
+    visitAssignment(stat->init);
+    visitAssignment(stat->step);
+    return stat->stat->accept(this);
+}
+
+int32_t FeatureChecker::visitReturnStatement(ReturnStatement* stat)
+{
+    visitAssignment(stat->value);
+    return 0;
 }
 
 void FeatureChecker::visitLocation(location_t& location)
